@@ -54,6 +54,15 @@ def main():
     else:
         tier = os.environ.get("VERIF_TIER") or sys.argv[2]
     seed = int(os.environ.get("VERIF_SEED", "0"))
+    if replay:
+        # a replay re-runs the recorded case; checks whose cases all derive from the seed re-run the recorded seed and tier
+        try:
+            rep0 = json.load(open(replay))
+            seed = int(rep0.get("seed", seed))
+            tier = rep0.get("tier", tier)
+        except Exception as e:
+            print("CHECK-ERROR cannot read replay file:", e)
+            sys.exit(2)
     ctx = Ctx(prop, tier, seed)
     os.makedirs(EVID, exist_ok=True)
     os.makedirs(REPLAYS, exist_ok=True)
@@ -119,14 +128,14 @@ def main():
     if real:
         v = real[0]
         path = os.path.join(REPLAYS, f"{prop}-{short_hash(v)}.json")
-        write_json(path, {"property": prop, "kind": "violation", "seed": seed, **v,
+        write_json(path, {"property": prop, "kind": "violation", "seed": seed, "tier": tier, **v,
                           "rerun": f"bin/check {prop} --replay {os.path.relpath(path, VERIF)}"})
         out_lines.append(f"VIOLATION property={prop} replay={os.path.relpath(path, VERIF)}")
         exit_code = 1
     elif proof_broken or ctx.unproved:
         what = proof_broken or ctx.unproved[0]
         path = os.path.join(REPLAYS, f"{prop}-unproved-{short_hash(what)}.json")
-        write_json(path, {"property": prop, "kind": "unproved", "seed": seed,
+        write_json(path, {"property": prop, "kind": "unproved", "seed": seed, "tier": tier,
                           "theorem_or_tie": what, "other_divergences": ctx.unproved[1:4],
                           "note": "the proof obligation or the correspondence no longer checks; the search of the model and the implementation found no input on which the property fails",
                           "rerun": f"bin/check {prop} {tier}"})
